@@ -20,8 +20,8 @@ var msM = Macros{
 	"REL":   "client/keeper.(Keeper).GetRelayerAddressOnOtherChain($0.ClientKeeper, {CTX}, {PKT}.SrcChain, $2.Signer)",
 	"CALL":  "packet/keeper.(Keeper).CallPacket($0.PacketKeeper, {CC}#0, \"onRecvPacket\", [{PKT}])",
 	"RES":   "cell<accounts/abi.(ABI).UnpackIntoInterface(g:syscontracts/xibc_packet.PacketContract.ABI, _, \"onRecvPacket\", {CALL}#0.Ret)>",
-	"DST":   "packet/types.(Packet).GetDstChain({PKT})",
-	"SRC":   "packet/types.(Packet).GetSrcChain({PKT})",
+	"DST":   "{PKT}.DstChain",
+	"SRC":   "{PKT}.SrcChain",
 }
 
 // notReachableFromEdge: block of `at` is not reachable from the successor taken when cond holds.
